@@ -15,6 +15,7 @@
 package mysql
 
 import (
+	"errors"
 	"fmt"
 	"strconv"
 	"strings"
@@ -223,6 +224,12 @@ func (s *SessionVariables) Invalidate(unused map[string]*Variable) {
 
 // Reset removes any session variables that are not recognized according to the current verification rules.
 func (s *SessionVariables) Reset(err error) {
+	// only a refusal by the backend says something about the variables themselves; after a broken
+	// connection the client's variables are still what it asked for
+	var sqlErr *SQLError
+	if !errors.As(err, &sqlErr) {
+		return
+	}
 	// Retrieve all current session variables.
 	allVars := s.GetAll()
 	// Iterate through all the variables.
